@@ -54,7 +54,7 @@ func (c14) Cases(tier string) int {
 func (c14) Describe() core.Info {
 	return core.Info{
 		Level: "exploration",
-		Rule: "one- and two-rule temporal programs over base facts t0(v)@[a h, b h] on a whole-hour timeline around a fixed evaluation time; base facts are either written as pairwise separated intervals or preloaded with overlaps and coalesced by the store. Shapes: each of the four operators with windows [a h, b h], 0 <= a <= b <= 12 (zero-length windows, windows ending on interval end points, 'now' bounds); variable annotations @[S,E] and @[_,E]; constant annotations (holds throughout); head annotations with variables, constants and 'now' (start > end predicted as an error); an operator over a derived temporal predicate. Oracle: pointwise semantics by interval arithmetic on the normalised union of the model's intervals. Case 0 additionally checks the nine interval-relation predicates exhaustively on all pairs of intervals of a 6-point timeline (21x21x9 decisions) against their closed-interval definitions and converse/symmetry laws, with intervals given as pairs of numbers and as pairs of time instants (the declared argument type). Non-trivial: window touches an interval end point or spans two stored intervals; distinct by case content.",
+		Rule: "one- and two-rule temporal programs over base facts t0(v)@[a h, b h] on a whole-hour timeline around a fixed evaluation time; base facts are either written as pairwise separated intervals or preloaded with overlaps and coalesced by the store. Shapes: each of the four operators with windows [a h, b h], 0 <= a <= b <= 12 (zero-length windows, windows ending on interval end points, 'now' bounds); variable annotations @[S,E] and @[_,E]; a diamond over a literal that also carries @[S,E] (one solution per stored interval that meets the window); constant annotations (holds throughout); head annotations with variables, constants and 'now' (start > end predicted as an error); an operator over a derived temporal predicate. Oracle: pointwise semantics by interval arithmetic on the normalised union of the model's intervals. Case 0 additionally checks the nine interval-relation predicates exhaustively on all pairs of intervals of a 6-point timeline (21x21x9 decisions) against their closed-interval definitions and converse/symmetry laws, with intervals given as pairs of numbers and as pairs of time instants (the declared argument type). Non-trivial: window touches an interval end point or spans two stored intervals; distinct by case content.",
 		Assumptions: []string{"windows with a > b, the point shorthand p(X)@[T] against non-point intervals, and annotations over already bound variables are executed nowhere (the documentation does not define them)"},
 	}
 }
@@ -66,8 +66,11 @@ func (c14) Gen(r *rand.Rand, tier string, i int) any {
 	if i == 1 {
 		return c14Case{Shape: "relations", RelAs: "time"}
 	}
-	c := c14Case{Shape: []string{"operator", "operator", "operator", "enumerate", "enumerate-end", "const-annotation", "head-copy", "head-const", "head-now", "derived-operator"}[r.Intn(10)]}
+	c := c14Case{Shape: []string{"operator", "operator", "operator", "enumerate", "enumerate-end", "const-annotation", "head-copy", "head-const", "head-now", "derived-operator", "operator-enumerate"}[r.Intn(11)]}
 	c.Op = r.Intn(4)
+	if c.Shape == "operator-enumerate" {
+		c.Op = []int{0, 2}[r.Intn(2)] // diamonds: every stored interval that meets the window is one solution
+	}
 	c.WA = r.Intn(9)
 	c.WB = c.WA + r.Intn(13-c.WA)
 	if r.Intn(5) == 0 {
@@ -211,6 +214,16 @@ func c14Expected(c c14Case) c14Expect {
 				addP(numAtom("r", ast.Number(int64(v)), ast.Time(x.s), ast.Time(x.e)))
 			}
 		}
+	case "operator-enumerate":
+		// a diamond over a literal that also carries an annotation with variables: the annotation enumerates the
+		// stored intervals, the operator keeps those that hold at some instant of the window
+		for v, xs := range m {
+			for _, x := range xs {
+				if x.s <= w.e && w.s <= x.e {
+					addP(numAtom("r", ast.Number(int64(v)), ast.Time(x.s), ast.Time(x.e)))
+				}
+			}
+		}
 	case "enumerate-end":
 		for v, xs := range m {
 			for _, x := range xs {
@@ -274,6 +287,8 @@ func c14Rules(c c14Case) []gen.ClauseV {
 		}
 	case "enumerate":
 		return []gen.ClauseV{{Head: head("r", x, gen.VarT("S"), gen.VarT("E")), Body: []gen.LitV{t0(nil, varIv)}}}
+	case "operator-enumerate":
+		return []gen.ClauseV{{Head: head("r", x, gen.VarT("S"), gen.VarT("E")), Body: []gen.LitV{t0(opv(), varIv)}}}
 	case "enumerate-end":
 		return []gen.ClauseV{{Head: head("r", x, gen.VarT("E")), Body: []gen.LitV{t0(nil, &gen.IvV{S: gen.BoundV{K: "ninf"}, E: gen.BoundV{K: "var", V: "E"}})}}}
 	case "const-annotation":
